@@ -49,6 +49,8 @@ type c16Params struct {
 	PrepareAll bool `json:"prepare_all,omitempty"`
 	// Gateway: the runs push to one (loopback) push gateway; what it holds after each run mirrors that run
 	Gateway bool `json:"gateway,omitempty"`
+	// SlowGateway: the gateway takes 1.2 s to process every push (and takes in nothing its sender has given up meanwhile)
+	SlowGateway bool `json:"slow_gateway,omitempty"`
 }
 
 var c16Keys = []string{"region", "Region", "zone", "az", "team", "Team", "env", "build_id", "a", "b", "A", "z9", "_x", "cluster", "Cluster", "k8s_ns"}
@@ -110,9 +112,10 @@ func init() {
 					p.Runs = append(p.Runs, rp)
 				}
 				p.Gateway = i%4 == 1
+				p.SlowGateway = i%16 == 1
 				p.NoIterMetrics = i%6 == 5
 				p.PrepareAll = i%3 == 2
-				p.Desc = fmt.Sprintf("labels=%d runs=%d same=%v itermetrics=%v prepareAll=%v", len(p.Labels), nr, same, !p.NoIterMetrics, p.PrepareAll)
+				p.Desc = fmt.Sprintf("labels=%d runs=%d same=%v itermetrics=%v prepareAll=%v slowGateway=%v", len(p.Labels), nr, same, !p.NoIterMetrics, p.PrepareAll, p.SlowGateway)
 				cse := core.MkCase("C16", "runs", i, seed, p)
 				cse.Race = true
 				cse.Procs = pick(r, 2, 16)
@@ -161,7 +164,13 @@ func c16CLI(c *core.Case, o *core.Outcome) {
 	}
 	var n atomic.Int64
 	inst.Add("cliScenario", func(t *f1testing.T) f1testing.RunFn {
+		// a stage of the preparation timed through the setup handle: a stage timing, not another setup
+		t.Time("prepare", func() {})
+		setupT := t
 		return func(t *f1testing.T) {
+			if n.Load() == 0 {
+				setupT.Time("warm-up", func() {})
+			}
 			k := n.Add(1)
 			if k%3 == 0 {
 				// a stage of the program's own: its timings are not iterations, whatever it is called
@@ -184,7 +193,7 @@ func c16CLI(c *core.Case, o *core.Outcome) {
 		return
 	}
 	seen := 0
-	var samples uint64
+	var samples, setupSamples uint64
 	for _, mf := range mfs {
 		if mf.GetName() != engine.IterationFamily && mf.GetName() != engine.SetupFamily {
 			continue
@@ -196,6 +205,9 @@ func c16CLI(c *core.Case, o *core.Outcome) {
 			}
 			seen++
 			o.AddObs("series_checked", 1)
+			if mf.GetName() == engine.SetupFamily {
+				setupSamples += m.GetSummary().GetSampleCount()
+			}
 			if mf.GetName() == engine.IterationFamily && got["stage"] == "iteration" {
 				samples += m.GetSummary().GetSampleCount()
 			}
@@ -210,6 +222,10 @@ func c16CLI(c *core.Case, o *core.Outcome) {
 				}
 			}
 		}
+	}
+	if setupSamples != 1 {
+		o.Violate("cli-setup-samples:"+desc, "the setup family holds %d samples after one run with one setup (the program also times two stages through the setup handle: those are stage timings) (%s)", setupSamples, desc)
+		return
 	}
 	if pp["nogw"] == 1 {
 		if seen < 1 {
@@ -243,6 +259,9 @@ func c16Runs(c *core.Case, o *core.Outcome) {
 		if r0 := p.Runs[0]; !r0.SetupFail && !r0.NilRunFn && !r0.PreCancel && gw.RefuseFirst != 0 {
 			// an ordinary first run: exactly its first push (the one after setup) falls into the outage
 			gw.RefuseFirst = 1
+		}
+		if p.SlowGateway {
+			gw.RefuseFirst, gw.SlowAll = 0, 1200*time.Millisecond
 		}
 		defer gw.Close()
 	}
